@@ -231,6 +231,62 @@ theorem jwe_fresh_per_message (o : Oracle) (ops : List Op) (r : Rec) (hr : r ∈
     have : r.newDraws = ds := by simp [Rec.newDraws, hl]
     rw [this]; exact fr
 
+/-! ## draws of different calls never overlap, whatever was passed before -/
+
+/-- **steps_draws_disjoint.**  In every history, the draws of any two different steps are disjoint
+    segments of the stream, the earlier step's strictly before the later step's — whatever
+    operations, headers, keys and messages the calls in between (or before) were given.  In
+    particular message `k` consumes its own draws: nothing drawn for an earlier message, recipient
+    or key wrap is ever handed out again. -/
+theorem steps_draws_disjoint (o : Oracle) : ∀ (ops : List Op) (s : St),
+    (trace o s ops).Pairwise (fun r₁ r₂ =>
+      ∀ d₁ ∈ r₁.newDraws, ∀ d₂ ∈ r₂.newDraws, d₁.pos + d₁.bytes.length ≤ d₂.pos)
+  | [], _ => List.Pairwise.nil
+  | op :: ops, s => by
+    simp only [trace]
+    refine List.Pairwise.cons ?_ (steps_draws_disjoint o ops _)
+    intro r hr d₁ hd₁ d₂ hd₂
+    have h0 : Ext o s (stepRun o s op).2 := (step_ext op).run o s
+    obtain ⟨_, hc0⟩ := h0.newDraws
+    obtain ⟨pre, _, _, hpre, _, hpost⟩ := trace_mem o ops _ r hr
+    have h1 : Ext o (stepRun o s op).2 r.pre := by rw [hpre]; exact final_ext o pre _
+    obtain ⟨_, _, hc1⟩ := h1
+    have h2 : Ext o r.pre r.post := by rw [hpost]; exact (step_ext r.op).run o r.pre
+    obtain ⟨_, hc2⟩ := h2.newDraws
+    have b0 := (hc0.bounds d₁ hd₁).2
+    have b1 := hc1.le
+    have b2 := (hc2.bounds d₂ hd₂).1
+    omega
+
+/-- **kw_fresh_whatever_before.**  Whether a key-wrapping call draws is decided by the header VALUE
+    the caller passes to THIS call and by nothing that happened before (the model's state holds no
+    header): in every history, whenever `WrapKey` / `NewMessageWithKW` / `Message.Encrypt` is given
+    an AES-GCM key wrapper and a header without `iv` (nil or empty), the `iv` it hands out is a
+    12-byte draw of this very step; given a PBES2 wrapper and a header without `p2s`, the salt is a
+    32-byte draw of this very step.  With `steps_draws_disjoint`: a key-wrap iv or salt of one
+    call is never that of another call. -/
+theorem kw_fresh_whatever_before (o : Oracle) (ops : List Op) (r : Rec) (hr : r ∈ trace o St.init ops)
+    (items : List Item) (hout : r.out = .ok items) (kw : KW) (hd : Hdr)
+    (ha : r.op.kwArgs? = some (kw, hd)) :
+    (kw = .gcmkw → (hd.iv.getD []).length = 0 →
+        ∃ b, Item.kwIV b false ∈ items ∧ b.length = 12 ∧ Backed r.newDraws .kwIV b) ∧
+    (kw = .pbes2 → hd.p2s = none →
+        ∃ b, Item.salt b false ∈ items ∧ b.length = 32 ∧ Backed r.newDraws .salt b) := by
+  obtain ⟨_, _, _, _, ho, hp⟩ := trace_mem o ops _ r hr
+  have hrun : stepRun o r.pre r.op = (.ok items, r.post) := by rw [← hout, ho, hp]
+  obtain ⟨n, h', kitems, s1, s2, hk, hsub⟩ := step_kwWrap ha hrun
+  have hf := kwWrap_fresh hk
+  have hok := issued_ok o ops r hr items hout
+  constructor
+  · intro hkw h0
+    obtain ⟨b, hb⟩ := hf.1 hkw h0
+    have hm : Item.kwIV b false ∈ items := hsub _ (by rw [hb]; exact List.mem_singleton.mpr rfl)
+    exact ⟨b, hm, (hok _ hm).1, (hok _ hm).2⟩
+  · intro hkw h0
+    obtain ⟨b, c, hb⟩ := hf.2 hkw h0
+    have hm : Item.salt b false ∈ items := hsub _ (by rw [hb]; exact List.mem_cons_self)
+    exact ⟨b, hm, (hok _ hm).1, (hok _ hm).2⟩
+
 /-! ## non-vacuity: a concrete stream and a concrete history -/
 
 /-- a concrete stream: the byte at position `p` is `p mod 256` -/
@@ -273,6 +329,16 @@ example : (stepRun oCount St.init (.wrapKey .pbes2 32 ⟨none, none, 0⟩)).1 =
 /-- a failing `rand.Read` is an error, draws nothing and changes nothing -/
 example : stepRun oFail { St.init with insts := [Gcm.new .a128gcm 16] } (.gcmIV 0) =
     (.err "rand", { St.init with insts := [Gcm.new .a128gcm 16] }) := rfl
+
+/-- the same header value (no `iv`, no `p2s`) passed to several calls: every call draws its own
+    key-wrap iv / salt (non-vacuity of `kw_fresh_whatever_before` and `steps_draws_disjoint`) -/
+example :
+    let h : Hdr := ⟨none, none, 0⟩
+    let ops : List Op := [.newMessageKW .a128gcm .gcmkw h, .newMessageKW .a256cbc .gcmkw h,
+      .encrypt 0 .gcmkw h, .newMessageKW .a128gcm .pbes2 h, .encrypt 1 .pbes2 h]
+    (final oCount St.init ops).log.map (fun d => (d.kind, d.pos, d.bytes.length)) =
+      [(.cek, 0, 16), (.gcmMask, 16, 12), (.kwIV, 28, 12), (.cek, 40, 64), (.cbcIV, 104, 16), (.kwIV, 120, 12),
+       (.kwIV, 132, 12), (.cek, 144, 16), (.gcmMask, 160, 12), (.salt, 172, 32), (.salt, 204, 32)] := by decide
 
 /-! ## the concurrent clause: why one instance must not be shared without synchronisation -/
 
